@@ -23,6 +23,7 @@ type req struct {
 	ID   int64  `json:"id"`
 	Root string `json:"root"`
 	Text string `json:"text"`
+	Mode string `json:"mode,omitempty"` // "" = compile; "cleanup" = only the string-level clean-up passes
 }
 
 type rep struct {
@@ -41,6 +42,10 @@ func run(r req) (res rep) {
 	}()
 	rootContext := context.New(r.Root, "toolchain.yaml")
 	ctxt := processors.NewContext(rootContext)
+	if r.Mode == "cleanup" {
+		res.Out = operators.VerifCleanup(ctxt, r.Text)
+		return res
+	}
 	assembler := operators.NewAssembler(ctxt)
 	out, err := assembler.Run(r.Text)
 	res.Out = out
